@@ -8,6 +8,9 @@ def evaluate(ck, data, rules, docg):
     n_ok = n_paren = n_split = n_pointwise = 0
     for o in T.runs(data):
         split_fired = False
+        if o.get("init_glue") and o.get("end_glue") is False:
+            who = T.blame(o, "glue", "init_glue")
+            ck.violation("edit-glues-code-tokens:%s" % (who or "@" + o["rel"]), "%s: after %s two code tokens stand next to each other with nothing between them and read as a different lexical element (the emitted text merges them)" % (T.tag(o), who), T.rep(o, oracle="glue"))
         for r in o["records"]:
             if "c01" not in r:
                 continue
@@ -28,9 +31,9 @@ def evaluate(ck, data, rules, docg):
                 else:
                     ck.violation("overlapping-edits:" + rid, "%s: the edits %s hands to update overlap or are out of order and change length: the slices it analysed are not the slices that get replaced (spans %r)" % (T.tag(o), rid, r.get("spans")), T.rep(o, r, oracle="wf"))
         if o["status"] == "ok" and not split_fired and o.get("run_c01") is False:
-            ck.violation("run-changes-code-tokens:" + ",".join(sorted({r["rule"] for r in o["records"] if not r.get("c01", True) or not r.get("wf", True)})[:3]), "%s: the essential code tokens after the run differ from those before it" % T.tag(o), T.rep(o, oracle="run"))
+            ck.violation("run-changes-code-tokens:" + (",".join(sorted({r["rule"] for r in o["records"] if not r.get("c01", True) or not r.get("wf", True)})[:3]) or "@" + o["rel"]), "%s: the essential code tokens after the run differ from those before it" % T.tag(o), T.rep(o, oracle="run"))
         if o.get("reread_rejected"):
-            ck.violation("fixed-text-rejected:" + ",".join(sorted({r["rule"] for r in o["records"] if not r.get("wf", True)})[:2]), "%s: the fixed text is no longer accepted: %s" % (T.tag(o), o["reread_rejected"]), T.rep(o, oracle="reread"))
+            ck.violation("fixed-text-rejected:" + (",".join(sorted({r["rule"] for r in o["records"] if not r.get("wf", True)})[:2]) or (T.blame(o, "glue", "init_glue") if o.get("init_glue") else None) or T.blame(o, "shape", "init_shape") or "@" + o["rel"]), "%s: the fixed text is no longer accepted: %s" % (T.tag(o), o["reread_rejected"]), T.rep(o, oracle="reread"))
     ck.sample({"edit_obligations_passed": n_ok, "via_parenthesis_relaxation": n_paren, "split_rule_applications_deferred": n_split})
     return {"edits_ok": n_ok, "paren_relaxed": n_paren, "split_rule_applications": n_split, "pointwise_steps": n_pointwise, "samples": ck.cov["samples"]}
 
